@@ -179,6 +179,32 @@ def run(F, rep):
         rep.ob("C03-NAME", "plain-vs-delta decision is `field count differs from the previous name` on both sides", okw and okr,
                detail="writer tests %s; reader tests %s" % ([x for x in dw if "len" in x][:3], [x for x in dr if "len" in x][:3]), key="C03-NAME | plain vs delta")
 
+    # ------------------------------------------------------------ RUN: every matching position is counted exactly once
+    if enc:
+        exe2 = Exprs(enc)
+        defs = []
+        for l, n in enc.local_names().items():
+            if n != "cnt":
+                continue
+            for d in exe2.defs.get(l, []):
+                if d[0] != "rv":
+                    continue
+                v = fmt(strip_tags(exe2.rvalue(d[3])))
+                conds = [(fmt(strip_tags(c[0])), cond_bool(c[1], c[2])) for c in dominating_conds(enc, d[1], exe2) if cond_bool(c[1], c[2]) is not None]
+                defs.append((v, conds))
+        def under(conds, pat, truth):
+            return any(re.search(pat, c) and v is truth for c, v in conds)
+        EQ = r"^Eq\((?!.*cnt).*\[.*\].*, .*\[.*\].*\)$"      # comparison of two indexed bytes (current vs previous name)
+        eq_defs = [(v, cs) for v, cs in defs if under(cs, EQ, True)]
+        ne_defs = [(v, cs) for v, cs in defs if under(cs, EQ, False)]
+        ok_eq = bool(eq_defs) and all(v in ("Add(1, cnt)", "Add(cnt, 1)") or (v == "1" and under(cs, r"^Eq\(\d+, cnt\)$|^Eq\(cnt, \d+\)$", True)) for v, cs in eq_defs) and \
+            any(v == "1" for v, _ in eq_defs)
+        ok_ne = all(v == "0" for v, _ in ne_defs)
+        rep.ob("C03-RUN", "run-length encoder counts every matching position exactly once (cnt += 1, or cnt = 1 right after flushing a full run; cnt = 0 after a mismatch)",
+               ok_eq and ok_ne, detail="assignments under match: %s; under mismatch: %s" % ([v for v, _ in eq_defs], [v for v, _ in ne_defs]),
+               site="%s:%d" % (enc.file, enc.line_lo), key="C03-RUN | encode_split | counter updates")
+        rep.floor("C03-RUN", len(eq_defs), 2, "counter updates on a matching position")
+
     # ------------------------------------------------------------ ORDER
     cadt = F.adts.get("ragc_common::collection::CollectionV3")
     sadt = F.adts.get("ragc_common::collection::SampleDesc")
